@@ -387,7 +387,7 @@ def main(argv=None):
         # ------------------------------------------------------------ native bounded stand-ins
         nat = [n for n in P.get('native', [])
                if n.get('when', 'undecided') == 'quick' or tier == 'thorough'
-               or (n.get('when', 'undecided') == 'undecided' and undecided)]
+               or (n.get('when', 'undecided') == 'undecided' and (undecided or failures))]   # failures: look for a concrete input
         if nat and not args.no_kani:
             if scratch is None:
                 try:
